@@ -152,3 +152,19 @@ func loadOrStoreVisitMap(visitMap *visitMap, v reflect.Value) (loaded bool) {
 
 	return
 }
+
+// distinctPointers drops the repeated pointers of a slice of pointers
+func distinctPointers(values reflect.Value) reflect.Value {
+	if values.Kind() != reflect.Slice {
+		return values
+	}
+	seen := make(map[uintptr]bool, values.Len())
+	distinct := reflect.MakeSlice(values.Type(), 0, values.Len())
+	for i := 0; i < values.Len(); i++ {
+		if p := values.Index(i).Pointer(); !seen[p] {
+			seen[p] = true
+			distinct = reflect.Append(distinct, values.Index(i))
+		}
+	}
+	return distinct
+}
